@@ -13,7 +13,11 @@ FakeQueue mirrors CPython's multiprocessing.queues.Queue:
   * a feeder moves one buffered item at a time into a FIFO pipe of capacity
     `pipe_cap` items (action Flush);
   * get(True, timeout): receives iff the pipe is non-empty; raises Empty only
-    when the scheduler picks the Timeout action while the pipe is empty;
+    when the scheduler picks the Timeout action while the pipe is empty; with
+    `contention=True` also on action CTimeout, offered while the pipe is NOT
+    empty and another worker is inside get() on the same queue (that worker may
+    hold the reader lock for the whole timeout: `_rlock.acquire(block, timeout)`
+    fails and queues.py raises Empty);
   * close() appends a sentinel; join_thread() is enabled once the buffer has
     been flushed completely.
 
@@ -42,8 +46,13 @@ class Actor:
 
 
 class Scheduler:
-    def __init__(self, schedule=(), pipe_cap=1 << 30, max_steps=200000, fallback="progress", chooser=None):
+    def __init__(self, schedule=(), pipe_cap=1 << 30, max_steps=200000, fallback="progress", chooser=None,
+                 contention=False):
         self.chooser = chooser
+        # reader-lock contention: queues.py get(timeout) also raises Empty when
+        # `self._rlock.acquire(block, timeout)` fails, i.e. while another process
+        # sits inside get() holding the lock -- even if the pipe holds items
+        self.contention = contention
         self.schedule = list(schedule)
         self.k = 0
         self.pipe_cap = pipe_cap
@@ -84,7 +93,12 @@ class Scheduler:
         if kind == "get":
             q = obj
             if q.pipe:
-                return [(("Recv", f"{who}:{q.name}"), False)]
+                acts = [(("Recv", f"{who}:{q.name}"), False)]
+                if self.contention and a is not self.main and any(
+                        b is not a and b is not self.main and not b.exited and b.pending is not None
+                        and b.pending[0] == "get" and b.pending[1] is q for b in self.actors.values()):
+                    acts.append((("CTimeout", f"{who}:{q.name}"), not any(e.flag for e in self.events)))
+                return acts
             # a timeout is a stutter step unless a shutdown flag is already
             # raised (then the worker's next flag test makes progress); the main
             # actor (walk dispatcher) just polls again.
@@ -421,14 +435,16 @@ def trace_chooser(names):
     return ch
 
 
-def run_under(schedule, fn, pipe_cap=1 << 30, max_steps=200000, fallback="progress", chooser=None, pass_sched=False):
+def run_under(schedule, fn, pipe_cap=1 << 30, max_steps=200000, fallback="progress", chooser=None, pass_sched=False,
+              contention=False):
     """Run fn() (a call into toasty that uses multiprocessing) under the
     scheduler.  Returns (outcome, value_or_exception, sched) with outcome in
     {"returned", "raised", "STUCK", "DEADLOCK", "STEPLIMIT"}."""
     import multiprocessing as real_mp
     import sys
 
-    sched = Scheduler(schedule, pipe_cap=pipe_cap, max_steps=max_steps, fallback=fallback, chooser=chooser)
+    sched = Scheduler(schedule, pipe_cap=pipe_cap, max_steps=max_steps, fallback=fallback, chooser=chooser,
+                      contention=contention)
     fake = FakeMp(sched, real_mp)
     saved = sys.modules["multiprocessing"]
     saved_attrs = {}
